@@ -161,3 +161,122 @@ pub fn c18_base<const W: usize, const M: usize, const N: usize>() {
     check!(inv(&pb, withk.k_val_l, len, W, M), "C18: (base case) validity invariant does not hold after new()");
     cover!(true, "req: end of harness reached");
 }
+
+
+// ---------------------------------------------------------------------------
+// Clause (2) as an inductive step: the k-mer list attached by ONE call is exactly
+// the list of canonical w-mers of the valid windows that END at the positions this
+// call consumed.  Calls consume consecutive, disjoint position ranges that tile
+// [0, len), so by induction the concatenation over all calls is the sequence of
+// canonical w-mers of the input in order - none lost, none duplicated - for call
+// histories of any length.
+
+use crate::minimiser::verif_c09i::{any_state as any_mstate, clean_run, inv as inv_m};
+
+/// what the three k-mer fields mean: c = clean bases since the last ambiguous byte
+fn inv_k<const W: usize, const N: usize>(s: &[u8], p: usize, k_val_f: u64, k_val_r: u64, k_val_l: usize) -> bool {
+    let c = clean_run::<N>(s, p);
+    if k_val_l != (if c < W - 1 { c } else { W - 1 }) {
+        return false;
+    }
+    let held = if c < W { c } else { W };
+    let mut f = 0u64;
+    let mut r = 0u64;
+    let mut j = 0usize;
+    while j < W {
+        if j < held {
+            let d = code(s[p - 1 - j]) as u64;
+            f |= d << (2 * j);
+            r |= (3 - d) << (2 * (W - 1 - j));
+        }
+        j += 1;
+    }
+    k_val_f == f && k_val_r == r
+}
+
+/// W <= 31, M concrete (W - M + 1 <= BCAP); N = max sequence length.
+pub fn c18_kmers_step<const W: usize, const M: usize, const N: usize>() {
+    let seq: [u8; N] = any_seq::<N>();
+    let len = any_usize();
+    assume(len <= N);
+    let s = &seq[..len];
+    let st = any_mstate();
+    let k_val_f = any_u64();
+    let k_val_r = any_u64();
+    let k_val_l = any_usize();
+    assume(inv_m::<W, M, N>(&st, s));
+    assume(inv_k::<W, N>(s, st.pos, k_val_f, k_val_r, k_val_l));
+
+    #[cfg(not(kani))]
+    {
+        // native replay: confirmed only by a real history (both real iterators from `new`)
+        let mut b = KmerMinimiserGenerator::new(s, W, M);
+        let mut kg = crate::kmer::KmerGenerator::new(s, W);
+        let mut i = 0;
+        while i < N + 3 {
+            if let Some((_, _, _, ks)) = b.next() {
+                let mut j = 0;
+                while j < ks.len() {
+                    let g = kg.next();
+                    check!(g.map(|(f, r)| if f < r { f } else { r }) == Some(ks[j]), "C18: (from new) attached k-mers are not the canonical w-mers of the windows in order");
+                    j += 1;
+                }
+            }
+            i += 1;
+        }
+        check!(kg.next().is_none(), "C18: (from new) a valid window's w-mer is lost (not attached to any run)");
+        println!("REPLAY-INFO: inductive-step counterexample not confirmed by a real history on this sequence (pre-state may be unreachable)");
+        return;
+    }
+
+    let mut withk = build_withk(s, W, M, &st, k_val_f, k_val_r, k_val_l);
+    let out = withk.next();
+    let post = read_withk(&withk);
+    check!(post.pos >= st.pos && post.pos <= len, "C18: the iterator position moves backwards or past the end");
+    check!(out.is_some() || post.pos == len, "C18: the iterator ends before the end of the sequence");
+    // oracle: canonical w-mers of the valid windows ending at the positions consumed by this call
+    let mut n = 0usize;
+    let mut e = 0usize;
+    while e < N {
+        if e >= st.pos && e < post.pos && e + 1 >= W && all_clean(&s[e + 1 - W..e + 1]) {
+            let w = &s[e + 1 - W..e + 1];
+            let f = fwd_code(w);
+            let r = rev_code(w);
+            let c = if f < r { f } else { r };
+            match &out {
+                Some((_, _, _, ks)) => {
+                    check!(n < ks.len(), "C18: a valid window's w-mer is lost (not attached to any run)");
+                    if n < ks.len() {
+                        check!(ks[n] == c, "C18: attached k-mers are not the canonical w-mers of the windows in order");
+                    }
+                }
+                None => {
+                    check!(false, "C18: a valid window's w-mer is lost (not attached to any run)");
+                }
+            }
+            n += 1;
+        }
+        e += 1;
+    }
+    if let Some((_, _, _, ks)) = &out {
+        check!(ks.len() == n, "C18: a k-mer is attached that is no w-mer of a valid window");
+    }
+    check!(inv_m::<W, M, N>(&post, s), "C18: (inductive step) the state invariant is not re-established");
+    check!(inv_k::<W, N>(s, post.pos, withk.k_val_f, withk.k_val_r, withk.k_val_l), "C18: (inductive step) the k-mer field invariant is not re-established");
+    cover!(n >= 2, "req: a call that attaches two or more w-mers");
+    cover!(out.is_some() && n == 0, "opt: a run returned with an empty k-mer list");
+    cover!(true, "req: end of harness reached");
+    core::mem::forget(out);
+}
+
+pub fn c18_kmers_base<const W: usize, const M: usize, const N: usize>() {
+    let seq: [u8; N] = any_seq::<N>();
+    let len = any_usize();
+    assume(len <= N);
+    let s = &seq[..len];
+    let g = KmerMinimiserGenerator::new(s, W, M);
+    let st = read_withk(&g);
+    check!(inv_m::<W, M, N>(&st, s), "C18: (base case) the state invariant does not hold after new()");
+    check!(inv_k::<W, N>(s, st.pos, g.k_val_f, g.k_val_r, g.k_val_l), "C18: (base case) the k-mer field invariant does not hold after new()");
+    cover!(true, "req: end of harness reached");
+}
